@@ -46,6 +46,8 @@ Step ==
             /\ UNCHANGED <<conf, jobOf, hand, confd>>
        [] e.e = "send" /\ e.m.t = "Illegal" ->
             /\ Bad("binding-ended", e.w, 0) /\ Keep
+       [] e.e = "end" ->
+            /\ Check(~e.st.failed, "controller-failed-the-flow", e.who, e.w) /\ Keep
        [] e.e = "fin" ->
             /\ Check(e.done \/ e.free, "job-never-confirmed", e.produced, Len(dconf))
             /\ Check(~e.done \/ \A k \in 1..e.produced : k \in hand, "job-never-handed-to-a-worker", e.produced, Cardinality(hand))
